@@ -122,6 +122,10 @@ def function(lang, name, kind, chain, sibling=False):
             return [f"class K{name} {{", f"  {name}({params}) {{"] + ind(body, 2) + ["  }", "}"], 1
         if kind == "arrow":
             return [f"const {name} = ({params}) => {{"] + ind(body, 1) + ["};"], 0
+        if kind == "function-expression":
+            return [f"const {name} = function ({params}) {{"] + ind(body, 1) + ["};"], 0
+        if kind == "generator":
+            return [f"function* {name}({params}) {{"] + ind(body, 1) + ["}"], 0
     else:
         params = "c: bool, d: bool, n: i32, v: i32"
         if kind == "function":
@@ -135,6 +139,6 @@ def function(lang, name, kind, chain, sibling=False):
 
 def kinds(lang):
     return {"python": ("function", "async", "method", "decorated"),
-            "typescript": ("function", "async", "method", "arrow"),
-            "javascript": ("function", "async", "method", "arrow"),
+            "typescript": ("function", "async", "method", "arrow", "function-expression", "generator"),
+            "javascript": ("function", "async", "method", "arrow", "function-expression", "generator"),
             "rust": ("function", "async", "method")}[lang]
